@@ -40,6 +40,13 @@ CLAIMED = {
             "battery-level identity it rests on is C01.",
             "Lean 4 proof (sum identity, losses) + exact/Float differential correspondence + trace oracle on real runs",
             "DESIGN.md §4 C06"),
+    "C16": ("Determinism and isolation of the IMPLEMENTATION are decided by paired real runs of all eight strategies "
+            "(fresh/fresh, second run on one Scenario object, another strategy first on the same object, all timestamps "
+            "shifted by whole weeks, an added unrelated connector) with exact comparison of every output series and of "
+            "the scenario definition before/after; the model side proves the connector-frame property of the loop's "
+            "bookkeeping. A pure model cannot exhibit hidden Python state, so this claim is partial by nature.",
+            "paired real runs (exact comparison) + Lean frame theorems on the run-loop model",
+            "DESIGN.md §4 C16"),
     "C17": ("Run shape for every strategy (at most n steps, one record per step, errors in event processing / strategy / "
             "safety checks end the run with that step and flag it, no error means exactly n steps) is a Lean theorem about "
             "the loop model (structural recursion, hence terminating); compared with real runs incl. injected faults. "
